@@ -6,6 +6,7 @@ import QiVerif.Driver.C16
 import QiVerif.Driver.C09
 import QiVerif.Driver.Codec
 import QiVerif.Driver.C07
+import QiVerif.Driver.C17
 open QiVerif.Driver
 
 /-- parameters handed over by ./check from the regenerated constants -/
@@ -15,6 +16,7 @@ structure Params where
 /-- state of the stateful op streams (each has an explicit reset op) -/
 structure DState where
   svc : QiVerif.Service.Svc := {}
+  ep : C17.St := {}
 
 def dispatch (p : Params) (st : DState) (line : String) : DState × String :=
   let ws := words line
@@ -34,6 +36,9 @@ def dispatch (p : Params) (st : DState) (line : String) : DState × String :=
     else if op.startsWith "sig." then (st, C09.run ws)
     else if op.startsWith "rd." || op.startsWith "val." || op.startsWith "enc." || op.startsWith "dec." then
       (st, Codec.run ws)
+    else if op.startsWith "ep." then
+      let (s', out) := C17.run st.ep ws
+      ({ st with ep := s' }, out)
     else if op.startsWith "svc." then
       let (s', out) := C16.run st.svc ws
       ({ st with svc := s' }, out)
